@@ -50,7 +50,9 @@ def decDef : T → Option Def
     pure (.schemaBlock rs (← decUses ds))
   | _ => none
 
-def cfgCur : Cfg := {}
+def cfgCurOf (tb : Tables) : Cfg :=
+  { subtypeNarrow := tb.subtypeNarrow, dupScalarDropped := tb.dupScalarDropped,
+    dirArgWrapperAccepted := tb.dirArgWrapperAccepted }
 
 /-- case: (c13 MUTATION (l DEF…)); obs: (obs accepted offenderNamed) -/
 def handle (tb : Tables) (c impl : T) : String :=
@@ -59,6 +61,7 @@ def handle (tb : Tables) (c impl : T) : String :=
     match (do optMap decDef (← defs.asList)) with
     | none => "bad-op"
     | some s =>
+      let cfgCur := cfgCurOf tb
       let cm := tb.valueTbl.charMap
       let tc := tb.valueTbl.tokenClass
       let predicted := checkAll cm tc cfgCur s
@@ -72,9 +75,9 @@ def handle (tb : Tables) (c impl : T) : String :=
              if specOk then "ok"
              else
                let toggles : List (String × Cfg) :=
-                 [("D28", { cfgCur with fieldDirUsesUnchecked := false }), ("D29", { cfgCur with argLocIsInputField := false }),
-                  ("D43", { cfgCur with dupScalarDropped := false }), ("D44", { cfgCur with dirArgWrapperAccepted := false }),
-                  ("D45", { cfgCur with subtypeNarrow := false })]
+                 ([("D28", { cfgCur with fieldDirUsesUnchecked := false }), ("D29", { cfgCur with argLocIsInputField := false }),
+                  ("D43", { cfgCur with dupScalarDropped := false }), ("D43s", { cfgCur with dupScalarOverScalar := false }), ("D44", { cfgCur with dirArgWrapperAccepted := false }),
+                  ("D45", { cfgCur with subtypeNarrow := false })] : List (String × Cfg))
                let trig := toggles.filter (fun p => checkAll cm tc p.2 s != predicted)
                if acc == wf && !named then "unattributed offender-not-named"
                else if trig.isEmpty then "unattributed (obs " ++ toString predicted ++ ")"
@@ -84,8 +87,9 @@ def handle (tb : Tables) (c impl : T) : String :=
       | _ => "bad-op"
   | _ => "bad-op"
 
-def flags (_tb : Tables) : List (String × Bool) :=
-  [("D28", cfgCur.fieldDirUsesUnchecked), ("D29", cfgCur.argLocIsInputField), ("D43", cfgCur.dupScalarDropped),
+def flags (tb : Tables) : List (String × Bool) :=
+  let cfgCur := cfgCurOf tb
+  [("D28", cfgCur.fieldDirUsesUnchecked), ("D29", cfgCur.argLocIsInputField), ("D43", cfgCur.dupScalarDropped), ("D43s", cfgCur.dupScalarOverScalar),
    ("D44", cfgCur.dirArgWrapperAccepted), ("D45", cfgCur.subtypeNarrow)]
 
 end Ggql.Driver.C13
